@@ -9,6 +9,7 @@ from .rules import interrupt as it
 from .rules import optionrules as op
 from .rules import recordrules as rr
 from .rules import parser as ps
+from .rules import values as va
 
 NOT_BEHAVIOUR = 'decides the listed structural clauses (necessary conditions); does not decide the behaviour itself'
 
@@ -105,6 +106,34 @@ prop('C16',
      ['exception-escape set of the parser is {ElectionProfileError} (R31)', 'parser loops consume input (R32)',
       'in-range IDs only (R26, R27)', 'CLI handler exhaustiveness (R33)'],
      ['"satisfies the invariants of a valid election" beyond R26-R30', 'MemoryError / RecursionError (resource exhaustion)'])
+prop('C12',
+     [('R21', va.r21_scale_rounding), ('R22', va.r22_closure)],
+     'Abstract interpretation of the method bodies of Fixed (and Guarded) over the domain (scale dimension, number of '
+     'rounding steps, operand form): every store to a stored integer has the dimension of a value; each operator and '
+     'classmethod computes exactly the form the property prescribes (add/sub/neg/abs/x int exact; * / mul div muldiv one '
+     'floor of the exact product/quotient at the class scale, +1 unit exactly under remainder != 0 and round == up); '
+     'comparisons compare like with like; results are objects of the same class; Rational is a Fraction subclass whose '
+     'wrapped operators cover every operator the package applies to values. ' + NOT_BEHAVIOUR,
+     ['per-operation exactness / single floor / upward unit (R21)', 'closure of the value classes (R22)'],
+     ['nothing of the algebra beyond trust in CPython int/divmod and fractions.Fraction'])
+
+prop('C13',
+     [('R23', va.r23_comparisons), ('R21', va.r21_scale_rounding), ('R24', va.r24_guard0_equivalence)],
+     'Static analysis of droop/values/guarded.py: the six comparisons are projections of one three-valued __cmp__ that '
+     'returns 0 exactly under |a-b| < 10^guard // 2 (at least 1) and otherwise the sign of the stored difference '
+     '(trichotomy follows); the guard == 0 summaries of every Guarded operation equal the Fixed summaries, operation by '
+     'operation, and the guard-0 flags equal the Fixed flags. ' + NOT_BEHAVIOUR,
+     ['tolerance law and trichotomy by construction (R23)', 'guard = 0 is Fixed, operation by operation (R24 + R21)'],
+     ['"quasi-exact equals exact": a statement about two counts'])
+
+prop('C14',
+     [('R25', va.r25_printing), ('R50', va.r50_value_immutability)],
+     'Static analysis of the three __str__ methods and of every store to a stored integer: printing is pure; the '
+     'rounding constant is half the dropped unit and is added before the floor; the integer/fraction split is applied to '
+     'a magnitude with the sign prefixed; renderings use str() only; value objects are never mutated after '
+     'construction. ' + NOT_BEHAVIOUR,
+     ['__str__ purity, half-up constants, sign-safe split, str-only rendering (R25)', 'value immutability (R50)'],
+     ['digit-exactness of the printed string for a given value (needs evaluation)'])
 
 LEVEL_TEXT = ('Static analysis of the source of /repo (never executed): obligations are enumerated from the '
               'repository\'s own entities (rule classes, call sites, stores, loops, class attributes) and each is '
